@@ -98,10 +98,12 @@ class SFp(Sym):
         if not SFp.liftable(other):
             return NotImplemented
         if op in ('+', '-', '*', '/', '**', '//', '%'):
-            ctx.used_axioms.add('floating-point arithmetic is uninterpreted (results are arbitrary floats)')
+            ctx.used_axioms.add('floating-point arithmetic is uninterpreted (a function of its operands, nothing more)')
             if op in ('/', '//', '%') and not reflected and not isinstance(other, SFp) and not isinstance(other, Sym) and other == 0:
                 raise PyRaise('ZeroDivisionError')
-            return SFp.fresh(ctx, 'fp' + {'+': 'add', '-': 'sub', '*': 'mul', '/': 'div', '**': 'pow', '//': 'fdiv', '%': 'mod'}[op], report=False)
+            o = SFp.lift(other)
+            a, b = (o, self) if reflected else (self, o)
+            return fp_apply(ctx, {'+': 'add', '-': 'sub', '*': 'mul', '/': 'div', '**': 'pow', '//': 'fdiv', '%': 'mod'}[op], a, b)
         raise Unsupported('float op ' + op)
 
     def unop(self, ctx, op):
@@ -120,3 +122,22 @@ class SFp(Sym):
 
     def __repr__(self):
         return 'SFp(%s,%s)' % (self.t, self.v)
+
+
+_FUNS = {}
+
+
+def fp_apply(ctx, name, *args):
+    """Uninterpreted float function of SFp arguments: the same operands give the same result, nothing else is known."""
+    sig = []
+    terms = []
+    for a in args:
+        sig += [z3.IntSort(), z3.RealSort()]
+        terms += [a.t, a.v]
+    key = (name, len(args))
+    if key not in _FUNS:
+        _FUNS[key] = (z3.Function('fp.%s.t' % name, *sig, z3.IntSort()), z3.Function('fp.%s.v' % name, *sig, z3.RealSort()))
+    ft, fv = _FUNS[key]
+    r = SFp(ft(*terms), fv(*terms))
+    ctx.assume(z3.And(r.t >= 0, r.t <= 3))
+    return r
